@@ -1,6 +1,6 @@
 import GuppyVerif.Lemmas.C01StoreGet
 /-! Zooming: `setitem` / `getitem` on a *sub-place* of a place in a `Good` state. -/
-namespace GuppyVerif.Wiring
+namespace GuppyVerif.DFWiring
 
 theorem GoodList.get {n : Nat} {L : Locals} {env : Env} {p : PlaceId} :
     ∀ (ts : List Ty) (i : Nat) (ps : List PVal) (j : Nat) (tj : Ty),
@@ -266,4 +266,4 @@ theorem runScript_good (T : Ty) (r : PlaceId) (hr : r ≠ []) (env0 : Env) (n0 :
       · simp only [Env.all, b3 w' a2, a6, b2]
       · intro x hx; rw [b3 x (by omega), a7 x hx]
 
-end GuppyVerif.Wiring
+end GuppyVerif.DFWiring
